@@ -5,7 +5,10 @@
 //      seeded reader) and a second, *parallel* session with other seeds;
 //   2. lists every tampering (message record × site × operator, c04_tree.go): the message of
 //      (round, sender, recipient | broadcast) is replaced, through the Hook, by a mutated CBOR
-//      encoding — a broadcast identically for all recipients, a unicast for its recipient;
+//      encoding — a broadcast identically for all recipients, a unicast for its recipient; plus the
+//      RELATIONAL tamperings (c04_rel.go): two sites of one message changed together so that sums /
+//      aggregates stay intact (paired shift, inverse scaling, swap, copy), and the same leaf of the
+//      unicasts of one sender to TWO recipients (both messages replaced);
 //   3. re-runs the protocol with the SAME seeds and that one replacement and records the final class
 //      of every party (ok | abort | abort-blame:<ids> | err:<class> | panic | hang), the class of the
 //      aggregator (signing protocols; `-` otherwise) and the validity of whatever honest parties /
@@ -16,9 +19,12 @@
 //   C04 tamper <proto> <cfg> <round> <sender> <rcpt|b> <path> <op> <changed> <ids> => (same rhs)
 //        round   the round whose OUTPUT the message is; partial signatures travel to the aggregator in
 //                the round after the last protocol round, as broadcasts
-//        path    site inside the message (c04_tree.go), `msg` for whole-message operators
+//        rcpt    recipient of the unicast, `b` for a broadcast, `<A>+<B>` when the unicasts to two
+//                recipients are changed together (ushift uscale uswap)
+//        path    site inside the message (c04_tree.go), `msg` for whole-message operators,
+//                `<pathA>~<pathB>` for the relational operators inside one message
 //        changed 1 the decoded value differs / 0 same value re-encoded / u undecodable at the
-//                recipient (= missing message) / d dropped
+//                recipient (= missing message) / d dropped; `<cA>+<cB>` per recipient for `<A>+<B>`
 //   The Lean driver (Drive/C04.lean) classifies <proto,round,b|u,path> against the check graph
 //   (Model/CheckGraph.lean) and decides the verdict; BAD keys accepted-bound-leaf, blamed-honest,
 //   bad-output-released, panic, hang.
@@ -28,10 +34,14 @@
 // output that an independent verifier rejects (signature: library verifier and crypto/ecdsa; shard:
 // lift(share) ≠ M·V, public keys of completing honest parties differ, redistribution changed pk).
 //
-// quick: a stratified sample per scenario — strata = (round, kind, leaf path), all map sites resp. all
-// array sites of a message kind being one stratum each; strata are visited in turn, inside a stratum
+// quick: a stratified sample per scenario — strata = (round, kind, leaf path with array position 0 and
+// the later positions as different strata), all map sites resp. all array sites of a message kind
+// being one stratum each; relational tamperings have their own strata (round, kind, SENDER, path pair)
+// and their own budget; strata are visited in turn, inside a stratum the senders take turns and
 // operators that substitute another VALID value (par / replay / swapr / swapf: they reach the semantic
-// checks) alternate with the others; sender, recipient and operator by the seed. thorough: every
+// checks; relational strata: the aggregate-preserving shift) alternate with the others; the rest by
+// the seed. Scenarios: ideal AND non-ideal access structures (a party owning several MSP rows), minimal
+// and non-minimal quorums, sparse IDs (c04_scen.go). thorough: every
 // applicable tampering of the 3-party runs (capped per scenario for the slow protocols: the cap and
 // the population are in the statistics).
 // `site=<proto>/r<round>/<b|u>/<normalised path>/<op>` in a !VIOLATION (and in the driver's BAD) is the
